@@ -43,12 +43,59 @@ def _ty_of_operand(f, op):
     return op.get("ty")
 
 
+def _provably_nonneg(f, pv, op, bb, idx):
+    from lib import codec
+    from lib.guards import conditions, normalize_bool_cond
+    if op["k"] not in ("copy", "move") or op["place"]["p"]:
+        return False
+    # the definitions of the operand itself (not chased through copies: the block of each definition is the arm that chose it)
+    arms = []
+    l = op["place"]["l"]
+    for _ in range(6):
+        ds = list(pv.reaching(l, bb, idx))
+        if len(ds) == 1 and ds[0] != -1:
+            _, dbb, didx, payload = pv._defs[ds[0]]
+            if didx != "term" and payload["k"] == "use" and payload["op"]["k"] in ("copy", "move") and not payload["op"]["place"]["p"] \
+                    and len(pv.reaching(payload["op"]["place"]["l"], dbb, didx)) > 1:
+                l, bb, idx = payload["op"]["place"]["l"], dbb, didx      # a plain move of the value that was chosen earlier
+                continue
+        break
+    for di in pv.reaching(l, bb, idx):
+        if di == -1:
+            return False
+        arms.append((pv.def_term(di), pv._defs[di][1]))
+    if not arms:
+        return False
+    for term, dbb in arms:
+        if term[0] == "const" and isinstance(term[1], int) and term[1] >= 0:
+            continue
+        neg = term[0] == "unop" and term[1] == "Not"
+        x = term[2] if neg else term
+        proved = False
+        for c in conditions(f, pv, dbb):
+            nb = normalize_bool_cond(c)
+            if not nb:
+                continue
+            t, val = nb
+            if t[0] == "binop" and t[2] == x and t[3] == ("const", 0):
+                is_negative = {"Lt": val, "Ge": not val}.get(t[1])
+                if is_negative is not None and is_negative == neg:
+                    proved = True
+            if is_call(t) and t[1].endswith("::is_negative") and t[2] == (x,) and val == neg:
+                proved = True
+        if not proved:
+            return False
+    return True
+
+
 def check(ctx):
     prog = ctx.prog
     fns = prog.real_fns()
     # ---- R-1 ----------------------------------------------------------------------
     narrow = []
     for f in fns:
+        if f.key in prog.fully_inlined:
+            continue      # a private helper analysed where it is used
         big = [l["ty"] for l in f.locals if l["ty"] in ("i128", "u128")]
         if big:
             ctx.ob("R-1", "no-128-bit-local:%s" % f.key, False, "no i128/u128 local in %s" % f.key, where=f.span)
@@ -66,9 +113,21 @@ def check(ctx):
                 res = pv.call_term(bb)
                 through_try = False
                 residual_ok = False
+                explicit = False
                 for b2, t2 in f.calls():
                     if callee_path(t2) == "core::ops::try_trait::Try::branch" and pv.operand_term(t2["args"][0], b2, "term") == res:
                         through_try = True
+                    # `i.try_into().map_err(|_| CoseError::OutOfRangeIntegerValue)`: the same mapping written out, then `?` / return
+                    if callee_path(t2) == "core::result::Result::<T, E>::map_err" and pv.operand_term(t2["args"][0], b2, "term") == res:
+                        from lib.codec import apply_fn
+                        mapped = apply_fn(prog, pv.operand_term(t2["args"][1], b2, "term"), [("x",)])
+                        if mapped == ("aggr", "common::CoseError", "OutOfRangeIntegerValue", ()):
+                            m = pv.call_term(b2)
+                            used = [b3 for b3, t3 in f.calls() if callee_path(t3) == "core::ops::try_trait::Try::branch"
+                                    and pv.operand_term(t3["args"][0], b3, "term") == m]
+                            returned = any(o["term"] == m for o in outcomes(f, pv) if o["kind"] in ("call", "value"))
+                            if used or returned:
+                                through_try = explicit = True
                 for b2, t2 in f.calls():
                     if callee_path(t2) == "core::ops::try_trait::FromResidual::from_residual":
                         a = pv.operand_term(t2["args"][0], b2, "term")
@@ -81,7 +140,7 @@ def check(ctx):
                            tgt, "" if want is None else " (position requires %s)" % want),
                        where=f.where(bb), detail={"target": tgt, "through_try": through_try},
                        sample={"fn": f.key, "target": tgt})
-                ctx.ob("R-3", "residual:%s" % f.key, residual_ok,
+                ctx.ob("R-3", "residual:%s" % f.key, residual_ok or explicit,
                        "the error converted at this narrowing site is TryFromIntError (-> OutOfRangeIntegerValue)", where=f.where(bb))
             elif name and name.startswith("util::cbor_type_error"):
                 continue
@@ -123,6 +182,14 @@ def check(ctx):
                         if ds:
                             ok = all(rng[0] <= d <= rng[1] for d in ds)
                             why = "discriminant of %s (%d variants, range %d..%d)" % (adt, len(ds), min(ds), max(ds))
+                if not ok and rv["kind"] == "IntToInt" and rng and rv["from_ty"] in INT_RANGES:
+                    # signed -> unsigned of the same or a larger width is exact when the value is provably non-negative:
+                    # every definition is a non-negative constant, `x` under the decision `!(x < 0)`, or `!x` (= -1-x) under `x < 0`
+                    src = INT_RANGES[rv["from_ty"]]
+                    if rng[0] == 0 and src[0] < 0 and rng[1] >= src[1]:
+                        ok = _provably_nonneg(f, pv, rv["op"], bi, si)
+                        if ok:
+                            why = "non-negative on every path (guarded by a sign test)"
                 if not ok:
                     ctx.ob("R-2", "cast:%s:%s->%s" % (f.key, rv["from_ty"], rv["ty"]), False,
                            "numeric cast %s -> %s of a value that is not an enum discriminant/constant fitting the target: %s" % (
